@@ -13,8 +13,10 @@ import os
 import random
 
 TAG_POOL = ["a", "b", "c", "d", "wip", "slow", "setup", "teardown",
-            "always", "skip", "xfail", "t.x", "k=v", "small", "install", "t.x.y"]
-PLAIN_TAGS = ["a", "b", "c", "d", "slow", "always", "skip", "xfail", "t.x", "k=v", "small", "install", "t.x.y"]
+            "always", "skip", "xfail", "t.x", "k=v", "small", "install", "t.x.y",
+            "android", "sensor", "notify"]      # (names that CONTAIN the words and / or / not)
+PLAIN_TAGS = ["a", "b", "c", "d", "slow", "always", "skip", "xfail", "t.x", "k=v", "small", "install", "t.x.y",
+              "android", "sensor", "notify"]
 HOOK_NAMES = ["before_all", "after_all", "before_feature", "after_feature",
               "before_rule", "after_rule", "before_scenario", "after_scenario",
               "before_step", "after_step", "before_tag", "after_tag"]
@@ -23,7 +25,7 @@ ATTR_NAMES = ["va", "vb", "vc"]
 
 HOSTILE = [u"<", u">", u"&", u"\"", u"'", u"]]>", u"\x01", u"\x0b", u"\x1b[31m",
            u"\x7f", u"\x85", u"é", u"€", u"\U0001f600", u"￾",
-           u"<![CDATA[", u"&amp;", u"\t", u"\x00", u"\x1f"]
+           u"<![CDATA[", u"&amp;", u"\t", u"\x00", u"\x1f", u"]]", u"]]\x1b[0m>", u"]\x1b[1m]>"]
 
 
 # ---------------------------------------------------------------------------
@@ -408,7 +410,7 @@ def gen_outline(rng, lib, sid, opts):
             nrows = rng.randint(10, 12)     # two-digit row ids
         rows = [[rng.choice(["v%d" % rng.randint(0, 9), "", u"ü%d" % rng.randint(0, 9), "cx", "w w"])
                  for _ in ecols] for _ in range(nrows)]
-        examples.append({"name": rng.choice(["", "ex%d" % e]),
+        examples.append({"name": rng.choice(["", "ex%d" % e, "ex%d" % e, "ex%d for <%s>" % (e, ecols[0])]),
                          "tags": gen_tags(rng, opts["tag_pool"], opts["p_tag"] * 0.8, 2),
                          "headings": ecols, "rows": rows,
                          "kwd": rng.choice(["Examples", "Examples", "Scenarios"])})
@@ -816,6 +818,8 @@ def gen_actions(rng, world, dims, where):
         if rng.random() < 0.3:
             acts.append({"a": "log", "logger": rng.choice(["", "foo", "foo.bar", "baz"]),
                          "level": rng.choice(["DEBUG", "INFO", "WARNING", "ERROR"])})
+    if dims.get("status_reads") and rng.random() < 0.3:
+        acts.append({"a": "read_status"})       # user code looks at feature/rule/scenario.status mid-run
     if dims["ctx"] and rng.random() < 0.5:
         acts.append({"a": rng.choice(["set", "set", "set", "del"]),
                      "name": rng.choice(ATTR_NAMES)})
